@@ -238,7 +238,7 @@ def run(ctx):
     except TE.Refuse as e:
         ctx.obligation("translate_exprs", False, f"translator refused: {e}")
         tr_ok = False
-    ok, out = ctx.build(["proofs/CfgTrees.vo", "proofs/CfgChart.vo", "proofs/CkyProofs.vo", "proofs/PriorityProofs.vo"] + (["proofs/PriorityRescaled.vo"] if tr_ok else []))
+    ok, out = ctx.build(["proofs/CfgTrees.vo", "proofs/CfgChart.vo", "proofs/CkyProofs.vo", "proofs/PriorityProofs.vo"] + (["proofs/PriorityRescaled.vo"] if tr_ok else []) + ["proofs/StableSolves.vo"])
     if ok and tr_ok:
         ctx.prove("props/C02.v")
     else:
